@@ -56,8 +56,8 @@ def mutate(tree):
             del c[len(c) // 2]
 
 
-def one(P, std, ci, cseed, mons=None):
-    src = render(P, ci, cseed)
+def one(P, std, ci, cseed, mons=None, raw=None):
+    src = render(P, ci, cseed) if raw is None else raw
     r = parse_monitored(src, std, conserve=False, **CONFIGS[ci])
     if r.error is not None:
         return None, src, 0
@@ -94,6 +94,9 @@ def one(P, std, ci, cseed, mons=None):
 
 
 def check(payload):
+    if payload.get("mode") == "source":
+        v, _, _ = one(None, payload["std"], payload.get("ci", 1), 0, {"copies_checked": 0}, raw=payload["text"])
+        return {"violations": [v] if v else [], "digests": [], "monitors": {"copies_checked": 1}, "tally": {}}
     P = payload_program(payload)
     std = payload["std"]
     cseed = payload.get("comments_seed", 0)
@@ -118,6 +121,7 @@ def check(payload):
         Q = shrink_program(P, still, budget=60)
         w, qsrc, _ = one(Q, std, ci, cseed)
         v["shrunk"] = {"source": qsrc, "detail": w["detail"] if w else None}
+        v["payload"] = dict(payload, program=Q.to_json())
         viols.append(v)
     return {"violations": viols, "digests": digs, "tally": {"stmt_kinds": P.kinds()}, "monitors": mons,
             "sample": {"std": std, "source": render(P, 1, cseed)[:1200]}}
